@@ -69,7 +69,7 @@ def setup_paths():
 
     import signac
 
-    for name in ("signac", "synced_collections", "filelock"):
+    for name in ("signac", "synced_collections", "filelock", "sync"):
         lg = logging.getLogger(name)
         lg.addHandler(logging.NullHandler())
         lg.propagate = False
@@ -107,6 +107,13 @@ def run_forked(fn, timeout=60.0, with_sender=False):
             # in a nested clone would wait for that thread forever: arm at level 1 only
             if not _NESTED[0]:
                 _NESTED[0] = True
+                # the code under test may print (signac's dry run does): keep the check's stdout clean
+                try:
+                    dn = os.open(os.devnull, os.O_WRONLY)
+                    os.dup2(dn, 1)
+                    os.close(dn)
+                except OSError:
+                    pass
                 try:
                     faulthandler.dump_traceback_later(max(1.0, timeout - 0.5), exit=False)
                 except Exception:
